@@ -66,11 +66,19 @@ Definition req_mdvd_write (arg : sx) : sx :=
   | None => bad
   end.
 
+(* 804: the SRT document the writer model prints for cues with text lines *)
+Definition req_srt_write (arg : sx) : sx :=
+  match sx_listof sx_tcue arg with
+  | Some cs => SS (srt_write_doc cs)
+  | None => bad
+  end.
+
 Definition dispatch (code : Z) (arg : sx) : option sx :=
   match code with
   | 800 => Some (req_trace arg)
   | 801 => Some (req_expected arg)
   | 802 => Some (req_ok arg)
   | 803 => Some (req_mdvd_write arg)
+  | 804 => Some (req_srt_write arg)
   | _ => None
   end.
